@@ -109,8 +109,8 @@ def special(out):
 
 def main():
     name = sys.argv[1] if len(sys.argv) > 1 else ""
-    import jscall, demogen, cppres
-    legs = {"special": special, "jscall": jscall.run, "demogen": demogen.run, "cppres": cppres.run}
+    import jscall, demogen, cppres, resolve, doclinks
+    legs = {"special": special, "jscall": jscall.run, "demogen": demogen.run, "cppres": cppres.run, "resolve": resolve.run, "doclinks": doclinks.run}
     if name not in legs:
         print("usage: ./extra <%s>" % "|".join(legs), file=sys.stderr)
         return 2
@@ -123,7 +123,7 @@ def main():
     d = lib.ensure(os.path.join(lib.VERIF, "extra_evidence"))
     json.dump(out, open(os.path.join(d, name + ".json"), "w"), indent=1, default=str)
     seen = {}
-    if name in ("jscall", "demogen", "cppres"):
+    if name in ("jscall", "demogen", "cppres", "resolve", "doclinks"):
         # differences already analysed and described in DESIGN.md §0.6 are listed in extra_known.json (by ABI, kind and a pattern on
         # the method shape); they are printed as KNOWN-DIFFERENCE, anything else is a new DIFFERENCE (exit 3)
         known = json.load(open(os.path.join(lib.VERIF, "extra_known.json"))).get(name, [])
